@@ -34,6 +34,10 @@ partial def xmlOfJson (j : Json) : Xml :=
     let tag : String := match (a[0]? : Option Json) with | some (Json.str t) => t | _ => "?"
     let attrs : List (String × String) := match (a[1]? : Option Json) with
       | some (Json.obj o) => o.toList.map fun (k, v) => (k, match v with | Json.str s => s | _ => "?")
+      -- attributes in document order: an array of [name, value] pairs (a JSON object would be read back sorted)
+      | some (Json.arr ps) => ps.toList.map fun p => match p with
+          | Json.arr #[Json.str k, Json.str v] => (k, v)
+          | _ => ("?", "?")
       | _ => []
     let kids : List Xml := match (a[2]? : Option Json) with
       | some (Json.arr ks) => ks.toList.map xmlOfJson
